@@ -51,7 +51,7 @@ class C10(Check):
     ASSUMPTIONS = ['well-supported problems only (ill-posed fits are C09); x2 / 2-D fits excluded (deprecated by the code itself)',
                    'curves are compared at abscissae inside the returned knot range only',
                    'the documented procedure is cumulative: a point rejected in one pass is not re-admitted (inmask = previous mask)']
-    REQUIRED_COUNTERS = ('fixed_point_optimality_checked', 'fixed_point_mask_checked', 'breakpoint_dropped_cases', 'permutations_checked', 'refits_observed', 'reference_loops_agreeing', 'maxiter0_cases',
+    REQUIRED_COUNTERS = ('canary_sequences', 'fixed_point_optimality_checked', 'fixed_point_mask_checked', 'breakpoint_dropped_cases', 'permutations_checked', 'refits_observed', 'reference_loops_agreeing', 'maxiter0_cases',
                          'nonpositive_weight_points', 'outliers_flagged', 'deletion_checks', 'invvar_none_cases', 'float32_cases')
     CASE_CPU_S = 120
 
@@ -174,6 +174,35 @@ class C10(Check):
                     s, m = self.B.iterfit(x, y, invvar=iv, **kw)
                 c, vm = s.value(x)
         return s, m, c, vm
+
+    # ------------------------------------------------------------------ canary
+    def canary(self):
+        """A fixed, ordinary call sequence whose answer cannot depend on what ran before it in this process: a fit whose
+        breakpoints are denser than the sampling (takes the fit's not-positive-definite fallback), then a fit with rejection
+        on data carrying negative 'bad pixel' inverse variances and zeros.  Returns something comparable."""
+        g = np.random.default_rng(12345)
+        x = np.linspace(0.0, 10.0, 60)
+        y = np.sin(x) + g.normal(0, 0.05, 60)
+        iv = np.full(60, 400.0)
+        iv[[3, 17, 40]] = -1.0
+        iv[[8, 9]] = 0.0
+        y[25] += 3.0
+        res = []
+        for kw, xx, yy, ii in (({'nbkpts': 40, 'maxiter': 1}, x[::3], y[::3], np.abs(iv[::3]) + 1),
+                               ({'nbkpts': 6, 'maxiter': 3, 'upper': 4, 'lower': 4}, x, y, iv),
+                               ({'everyn': 1, 'maxiter': 0}, x[:12], y[:12], None),
+                               ({'bkspace': 2.5, 'maxiter': 2}, x, y, None)):
+            try:
+                # no np.errstate() here: the context manager would put back whatever the calls leave behind
+                with warnings.catch_warnings():
+                    warnings.simplefilter('ignore')
+                    sset, m = (self.B.iterfit(xx, yy, invvar=ii, nord=3, **kw) if ii is not None
+                               else self.B.iterfit(xx, yy, nord=3, **kw))
+                    c = sset.value(xx)[0]
+                res.append(('ok', m.tobytes(), np.asarray(c, dtype='f8').round(9).tobytes()))
+            except Exception as e:
+                res.append(('raised', type(e).__name__, str(e)[:80]))
+        return res
 
     def run(self, case, out):
         dt = case['dtype']
